@@ -351,6 +351,9 @@ func scenarios(tier string) []*vsched.Scenario {
 		{[]int{7}, [][]stepSpec{{ta()}, {ta()}}},
 		{nil, [][]stepSpec{{ta()}, {po()}}},
 		{nil, [][]stepSpec{{po(), ta()}, {pu(1), o(2)}}},
+		// two takers on an empty queue (each call is still one exclusive step on the wrapped container), with and without a producer
+		{nil, [][]stepSpec{{ta()}, {ta()}}},
+		{nil, [][]stepSpec{{ta()}, {ta()}, {pu(1)}}},
 	}
 	stack := []sc{
 		{[]int{7}, [][]stepSpec{{pp()}, {pp()}}},
